@@ -38,7 +38,9 @@ pub fn def(prop: &str) -> Option<CheckDef> {
                 "C16" => "C16",
                 _ => "C19",
             };
-            CheckDef { prop: p, quick_runs: 1_000_000, thorough_runs: 30_000_000, level: "exploration", rule: rule_mpmc }
+            // C14 judges every completed run with the exhaustive explainability search, which is an order of magnitude
+            // dearer on the larger programs of the thorough tier: 10 M runs there cost what 30 M cost elsewhere
+            CheckDef { prop: p, quick_runs: 1_000_000, thorough_runs: if p == "C14" { 10_000_000 } else { 30_000_000 }, level: "exploration", rule: rule_mpmc }
         }
         "C17" => CheckDef {
             prop: "C17",
